@@ -812,7 +812,10 @@ class _TailInterp:
             v = self.inner.ev(e.args[0], env)
             if isinstance(v, list) and v and isinstance(v[0], tuple) and v[0][0] == "worker-sketch":
                 return ("final", v[0][1])
-            raise MTViolation("parallel_merging is applied to `%s`, which holds no sketches of a requested type" % unparse(e.args[0]))
+            if isinstance(v, list):
+                raise MTViolation("parallel_merging is applied to `%s`, which holds no sketches of a requested type" % unparse(e.args[0]))
+            # not one of the per-worker lists the analysis tracks by name (a dict of lists, a helper's result): not read
+            raise MTUndecided("parallel_merging is applied to `%s`, a value the analysis does not track" % unparse(e.args[0]))
         if d == "tuple" and len(e.args) == 1:
             v = self.inner.ev(e.args[0], env)
             return tuple(v) if isinstance(v, (list, tuple)) else UNK
